@@ -54,6 +54,48 @@ type Stanza struct {
 	// Empty for the other stanza types.
 	Lay []string `json:"lay"`
 	Pw  bool     `json:"pw"` // inv: the invitation carries the room's password
+	// er: what stands inside the error presence (see erBody); "-" for the other stanza types.
+	Shape string `json:"shape"`
+}
+
+// erShapes lists the shapes of an error reply: the first five are well-formed (the reply carries
+// one decodable stanza error), the others are malformed (the call must still return - with some
+// error - and the reply must be released).
+var erShapes = []string{"wf", "nox", "ux", "pre", "post", "bare", "noerr", "wrongns", "empty", "badby", "unktype", "text"}
+
+// erBody returns the children of an error presence of the given shape; cond is the condition the
+// room uses for that request.
+func erBody(shape, cond string) string {
+	const mucX = `<x xmlns='http://jabber.org/protocol/muc'/>`
+	const ns = `urn:ietf:params:xml:ns:xmpp-stanzas`
+	good := fmt.Sprintf("<error type='cancel'><%s xmlns='%s'/></error>", cond, ns)
+	switch shape {
+	case "wf", "", "-": // the request's payload echoed, then the error
+		return mucX + good
+	case "nox": // the error alone
+		return good
+	case "ux": // a muc#user payload before the error
+		return `<x xmlns='http://jabber.org/protocol/muc#user'><item affiliation='none' role='none'/></x>` + good
+	case "pre": // character data and foreign elements before the error
+		return "\n  " + mucX + "<show>away</show>some text<c xmlns='http://jabber.org/protocol/caps' hash='sha-1' node='n' ver='v'/>\n  " + good
+	case "post": // further children after the error
+		return good + mucX + "<status>no</status>trailing text"
+	case "bare": // no children at all
+		return ""
+	case "noerr": // children, but no error
+		return mucX + "<status>no</status>"
+	case "wrongns": // an <error/> that is not the stream's stanza error element
+		return mucX + fmt.Sprintf("<error xmlns='urn:example:not-a-stanza-error' type='cancel'><%s xmlns='urn:example:not-a-stanza-error'/></error>", cond)
+	case "empty": // no type, no condition
+		return mucX + "<error/>"
+	case "badby": // an attribute the decoder rejects
+		return mucX + fmt.Sprintf("<error type='cancel' by='@@'><%s xmlns='%s'/></error>", cond, ns)
+	case "unktype": // a type outside the five defined ones
+		return mucX + fmt.Sprintf("<error type='bogus'><%s xmlns='%s'/></error>", cond, ns)
+	case "text": // a text, and no condition
+		return mucX + fmt.Sprintf("<error type='cancel'><text xmlns='%s'>not today</text></error>", ns)
+	}
+	panic("error shape " + shape)
 }
 
 const invPassword = "s3cret"
@@ -122,7 +164,11 @@ func stanzaBytes(s *Stanza, seq int) string {
 	case "un":
 		return fmt.Sprintf("<presence from='%s' to='me@example.net' id='s%d' type='unavailable'><x xmlns='http://jabber.org/protocol/muc#user'><item affiliation='member' role='none'/><status code='110'/></x></presence>", from, seq)
 	case "er":
-		return fmt.Sprintf("<presence from='%s' to='me@example.net' id='%s' type='error'><x xmlns='http://jabber.org/protocol/muc'/><error type='cancel'><%s xmlns='urn:ietf:params:xml:ns:xmpp-stanzas'/></error></presence>", from, s.Call, conds[s.Call])
+		body := erBody(s.Shape, conds[s.Call])
+		if body == "" {
+			return fmt.Sprintf("<presence from='%s' to='me@example.net' id='%s' type='error'/>", from, s.Call)
+		}
+		return fmt.Sprintf("<presence from='%s' to='me@example.net' id='%s' type='error'>%s</presence>", from, s.Call, body)
 	case "inv":
 		b := ""
 		mediated := false
@@ -793,6 +839,22 @@ func main() {
 				st.Lay = []string{}
 				if st.Ty == "inv" {
 					st.Lay = []string{"u"}
+				}
+			}
+			// every stanza carries a shape: the plain well-formed one for an error reply without
+			if st := s.Steps[i].St; st != nil && (st.Shape == "" || st.Ty != "er") {
+				st.Shape = "-"
+				if st.Ty == "er" {
+					st.Shape = "wf"
+				}
+			}
+			if st := s.Steps[i].St; st != nil && st.Ty == "er" {
+				known := false
+				for _, k := range erShapes {
+					known = known || k == st.Shape
+				}
+				if !known {
+					panic("unknown shape of an error reply: " + st.Shape)
 				}
 			}
 		}
